@@ -1,4 +1,5 @@
 """C14 - every encryption uses a fresh IV (history property)."""
+import json
 import os
 import shutil
 import struct
@@ -37,8 +38,11 @@ def setup_keys(d):
 
 def check_one(content, tag, info_file_bytes, pt, where):
     """Returns the IV after checking that it is the one the ciphertext was produced with."""
-    inner = cb.loads(info_file_bytes)
-    t = cb.loads(inner)
+    try:
+        inner = cb.loads(info_file_bytes)
+        t = cb.loads(inner)
+    except (cb.CborError, TypeError) as e:
+        raise Violation(f"{where}: encryption info file ({len(info_file_bytes)} bytes) is not a byte-string-wrapped CBOR item: {e}", "COSE_Encrypt_Tagged", bucket="info-undecodable")
     if not isinstance(t, cb.Tag) or t.tag != 96:
         raise Violation(f"{where}: encryption info is not tag 96", "COSE_Encrypt_Tagged")
     prot, unprot = t.value[0], t.value[1]
@@ -124,6 +128,15 @@ def make_machine(ctx, acc, ivfile):
             self.cli = 0
             self._holder["history"] = self.history
 
+        def _try(self, fn):
+            # every violation seen is kept: behaviour that depends on fresh randomness or on other processes does not repeat on replay
+            try:
+                return fn()
+            except Violation as v:
+                self._holder.setdefault("violation", v)
+                self._holder.setdefault("violation_history", list(self.history))
+                raise
+
         def _record(self, iv, what):
             self.history.append(what)
             acc.note("machine_steps")
@@ -139,11 +152,11 @@ def make_machine(ctx, acc, ivfile):
         @rule()
         def encrypt_same(self):
             self.same += 1
-            self._record(self.s.encrypt(b"identical firmware", "same"), "encrypt-same")
+            self._record(self._try(lambda: self.s.encrypt(b"identical firmware", "same")), "encrypt-same")
 
         @rule(n=st.integers(0, 64), salt=st.integers(0, 1000))
         def encrypt_new(self, n, salt):
-            self._record(self.s.encrypt(pbytes(n, salt), "new"), f"encrypt-new({n})")
+            self._record(self._try(lambda: self.s.encrypt(pbytes(n, salt), "new")), f"encrypt-new({n})")
 
         @rule()
         def new_object(self):
@@ -161,7 +174,7 @@ def make_machine(ctx, acc, ivfile):
         def encrypt_main(self):
             self.boundaries += 1
             self.same += 1
-            self._record(via_files(self.d, self.kd, b"identical firmware", "main"), "encrypt-via-cmd_encrypt.main")
+            self._record(self._try(lambda: via_files(self.d, self.kd, b"identical firmware", "main")), "encrypt-via-cmd_encrypt.main")
 
         @rule()
         def encrypt_cli(self):
@@ -171,7 +184,7 @@ def make_machine(ctx, acc, ivfile):
             self.boundaries += 1
             self.same += 1
             acc.note("cli_processes")
-            self._record(via_files(self.d, self.kd, b"identical firmware", "cli"), "encrypt-via-CLI-process")
+            self._record(self._try(lambda: via_files(self.d, self.kd, b"identical firmware", "cli")), "encrypt-via-CLI-process")
 
         def teardown(self):
             nt = self.same >= 2 and self.boundaries >= 1
@@ -350,6 +363,90 @@ def run_shard(ctx, spec):
                         raise Violation(f"IV {iv.hex()} published by two CLI processes ({seen[iv]}, {i})", "pairwise distinct IVs", bucket="iv-repeat")
                     seen[iv] = i
                     ivfile.write(iv)
+                # images of one build encrypted IN PARALLEL (make -j): one process per image, each with its own directories, every firmware
+                # file called fw.bin, one key, one temporary directory for all
+                import subprocess
+                import sys
+
+                driver = ("import sys, os, json\n"
+                          "a = json.loads(sys.argv[1])\n"
+                          "from suit_generator import cmd_encrypt\n"
+                          "for k in range(a['n']):\n"
+                          "    o = os.path.join(a['dir'], 'o%d' % k)\n"
+                          "    os.makedirs(o, exist_ok=True)\n"
+                          "    with open(os.path.join(a['dir'], 'fw.bin'), 'wb') as fh:\n"
+                          "        fh.write((a['text'] % ((k,) * a['text'].count('%d'))).encode())\n"
+                          "    cmd_encrypt.main(encrypt_subcommand='encrypt-and-generate', firmware=os.path.join(a['dir'], 'fw.bin'), key_name='K', key_id=7, context=a['kd'], output_dir=o,\n"
+                          "                     hash_alg='sha-256', kw_alg='direct', kms_script=a['kms'], encrypt_script=a['enc'])\n")
+                for rnd_ in range(2):
+                    if ctx.expired():
+                        break
+                    procs = []
+                    nper = 15
+                    for j in range(6):
+                        dj = os.path.join(d, f"par{rnd_}_{j}")
+                        os.makedirs(dj)
+                        text = f"image {j} of round {rnd_}, build %d " * (j + 1)
+                        env = dict(os.environ, PYTHONPATH=boot.REPO + os.pathsep + os.environ.get("PYTHONPATH", ""), TMPDIR=d)
+                        env.pop(boot.GUARD, None)
+                        arg = json.dumps({"n": nper, "dir": dj, "text": text, "kd": kd, "kms": sut.KMS_SCRIPT(), "enc": sut.ENCRYPT_SCRIPT()})
+                        procs.append((dj, text, subprocess.Popen([sys.executable, "-c", driver, arg], cwd=dj, env=env, stdout=subprocess.DEVNULL, stderr=subprocess.PIPE)))
+                    for dj, text, pr in procs:
+                        _, err = pr.communicate(timeout=600)
+                        if pr.returncode != 0:
+                            raise Violation(f"encrypt-and-generate (one of six parallel processes) failed: {err.decode(errors='replace')[-300:]}", "artifacts", bucket="parallel-failed")
+                        for k in range(nper):
+                            with open(os.path.join(dj, f"o{k}", "encrypted_content.bin"), "rb") as fh:
+                                c_ = fh.read()
+                            with open(os.path.join(dj, f"o{k}", "suit_encryption_info.bin"), "rb") as fh:
+                                info_ = fh.read()
+                            iv = check_one(c_[16:], c_[:16], info_, (text % ((k,) * text.count("%d"))).encode(), f"parallel process {os.path.basename(dj)} invocation {k}")
+                            acc.case(nt_key=("cli-par", rnd_, os.path.basename(dj), k), classes=["cli-process", "cli-processes-in-parallel"])
+                            if iv in seen:
+                                raise Violation(f"IV {iv.hex()} published twice ({seen[iv]}, {os.path.basename(dj)}/{k})", "pairwise distinct IVs", bucket="iv-repeat")
+                            seen[iv] = f"{os.path.basename(dj)}/{k}"
+                            ivfile.write(iv)
+                # one KMS session (one initialised KMS object) used by several threads at once
+                import threading
+
+                kms_mod = boot.load_by_path(sut.KMS_SCRIPT(), f"vf_kms_threads_{os.getpid()}")
+                if not hasattr(kms_mod, "suit_kms_factory"):
+                    raise boot.HarnessError("suit_kms_factory vanished")
+                kms = kms_mod.suit_kms_factory()
+                kms.init_kms(kd)
+                results, errors = [], []
+
+                def work(tid):
+                    try:
+                        for q in range(400):
+                            ptq = b"thread %d call %d" % (tid, q)
+                            aad = b"aad %d" % tid
+                            nonce, tag_, ct_ = kms.encrypt(ptq, "K", kd, aad)
+                            results.append((tid, q, nonce, tag_, ct_, ptq, aad))
+                    except Exception as e:  # reported below
+                        errors.append(e)
+
+                ths = [threading.Thread(target=work, args=(t_,)) for t_ in range(8)]
+                old_interval = sys.getswitchinterval()
+                sys.setswitchinterval(1e-6)  # threads take turns as often as the interpreter allows
+                try:
+                    for t_ in ths:
+                        t_.start()
+                    for t_ in ths:
+                        t_.join()
+                finally:
+                    sys.setswitchinterval(old_interval)
+                if errors:
+                    raise Violation(f"KMS encrypt from several threads failed: {type(errors[0]).__name__}: {errors[0]}", "nonce, tag, ciphertext")
+                tseen = {}
+                for tid, q, nonce, tag_, ct_, ptq, aad in results:
+                    acc.case(nt_key=("thread", tid, q), classes=["kms-session-shared-by-threads"])
+                    if nonce in tseen or nonce in seen:
+                        raise Violation(f"nonce {nonce.hex()} returned twice by one KMS session used from 8 threads ({tseen.get(nonce)}, {(tid, q)})", "pairwise distinct IVs", bucket="iv-repeat-threads")
+                    tseen[nonce] = (tid, q)
+                    if CO.aesgcm_decrypt(KEY, nonce, ct_, tag_, aad) != ptq:
+                        raise Violation(f"thread {tid} call {q}: the ciphertext does not decrypt under the returned nonce {nonce.hex()}", "returned nonce == used nonce", bucket="published-iv-not-used")
+                    ivfile.write(nonce)
         except Violation as v:
             acc.fail(spec["kind"], {"spec": spec}, v.observed, v.expected, bucket=v.bucket)
     return acc
@@ -394,7 +491,7 @@ def replay(ctx, check, case):
 
 def finalize(ctx, m, ev):
     c = m["counters"]
-    for need in ("storm:reused-object", "storm:fresh-object", "storm:reimport", "machine", "cli-process", "fork:inherited-object", "fork:reimport", "sizes", "size>=1MiB:True", "copied-keys-directory", "cli-process:PYTHONOPTIMIZE=1", "cli-process:PYTHONOPTIMIZE=2"):
+    for need in ("storm:reused-object", "storm:fresh-object", "storm:reimport", "machine", "cli-process", "fork:inherited-object", "fork:reimport", "sizes", "size>=1MiB:True", "copied-keys-directory", "cli-process:PYTHONOPTIMIZE=1", "cli-process:PYTHONOPTIMIZE=2", "cli-processes-in-parallel", "kms-session-shared-by-threads"):
         if not c.get(need):
             raise boot.HarnessError(f"interesting class {need} is empty")
     if m["info"].get("ivs_compared_pairwise", 0) < 1000:
